@@ -5,6 +5,7 @@ import (
 	"path/filepath"
 	"strings"
 	"testing"
+	"testing/synctest"
 	"time"
 )
 
@@ -46,7 +47,7 @@ func c06MakeEntry(dir, name, kind string, w *World) {
 func TestC06(t *testing.T) {
 	r := NewReporter(t)
 	defer r.Done()
-	r.Rule("directories with 0..3 entries of every kind combination (file, dir, symlink->file, symlink->dir, dangling, self-referencing link, link through a regular file) and name sets (ASCII, space, non-ASCII, 255 bytes, not valid UTF-8) x every interleaving of {ReadDir, ReadDirEntry, ReadDirEntryV2} of length <= entries+2 after OpenDir; sizes and modification times beyond 32 bits; directories named like disc images (with key files) and like protocol keywords; entry-count families (1..40 / 1..300 contiguous, then powers of two +-1 up to 4097); Stat and GetDirSize on every path of every tree with <= 3 nodes; distinct by (directory shape, command sequence)")
+	r.Rule("directories with 0..3 entries of every kind combination (file, dir, symlink->file, symlink->dir, dangling, self-referencing link, link through a regular file) and name sets (ASCII, space, non-ASCII, 255 bytes, not valid UTF-8) x every interleaving of {ReadDir, ReadDirEntry, ReadDirEntryV2} of length <= entries+2 after OpenDir; sizes and modification times beyond 32 bits; directories named like disc images (with key files) and like protocol keywords; entry-count families (1..40 / 1..300 contiguous, then powers of two +-1 up to 4097); listings after another client abandoned its own (write failure or reset after k bytes of a 1500-entry bulk answer, disconnect between entries); Stat and GetDirSize on every path of every tree with <= 3 nodes; distinct by (directory shape, command sequence)")
 	w := newWorld(t, "srv/root")
 	defer w.Cleanup()
 	mkFileAbs(filepath.Join(w.Root, "targets", "tfile"), 1234, 7, baseTime.Add(time1(40)))
@@ -188,6 +189,69 @@ func TestC06(t *testing.T) {
 		}
 	}
 	os.RemoveAll(filepath.Join(w.Root, "L"))
+
+	// (b'') a listing that another client abandoned half-way (its connection fails after k bytes of the bulk answer, or
+	// it disconnects between two entries): the next client's listings are those of its own directories, complete
+	for ki, k := range []int64{0, 3, 8, 9, 100, 2000, 40000} {
+		caseIdx++
+		if !r.Mine(caseIdx) {
+			continue
+		}
+		dir := filepath.Join(w.Root, "L")
+		os.RemoveAll(dir)
+		must(os.Mkdir(dir, 0o755))
+		for i := 0; i < 1500; i++ {
+			mkFileAbs(filepath.Join(dir, sprintf("entry-with-a-long-name-%05d.bin", i)), int64(i%9), 3, baseTime.Add(time1(i%50)))
+		}
+		small := filepath.Join(w.Root, "S")
+		os.RemoveAll(small)
+		mkFileAbs(filepath.Join(small, "one.bin"), 11, 1, baseTime)
+		mkFileAbs(filepath.Join(small, "two.bin"), 22, 1, baseTime)
+		must(os.Mkdir(filepath.Join(small, "three"), 0o755))
+		for vi, variant := range []string{"bulk-write-fails", "bulk-reset", "entry-by-entry-left"} {
+			prelude := func(s *Sess) {
+				a := s.Dial(nil)
+				a.Send(mkReq(opOpenDir, "/L").Encode())
+				synctest.Wait()
+				a.Take()
+				switch variant {
+				case "bulk-write-fails":
+					a.mu.Lock()
+					a.outFailAt = a.outTotal + k
+					a.mu.Unlock()
+					a.Send(noargReq(opReadDir).Encode())
+				case "bulk-reset":
+					a.outCap = int(k) + 1
+					a.Send(noargReq(opReadDir).Encode())
+					synctest.Wait()
+					a.Rst()
+				default:
+					for i := int64(0); i <= k%7; i++ {
+						a.Send(noargReq(opReadDirEntry).Encode())
+					}
+					synctest.Wait()
+					a.Fin()
+				}
+				synctest.Wait()
+			}
+			reqs := []Req{mkReq(opOpenDir, "/S"), noargReq(opReadDir), mkReq(opOpenDir, "/L"), noargReq(opReadDir), mkReq(opOpenDir, "/S"), noargReq(opReadDirEntry), noargReq(opReadDirEntryV2), noargReq(opReadDirEntry), noargReq(opReadDirEntry)}
+			desc := sprintf("after a listing abandoned by another client (%s, k=%d)", variant, k)
+			m := newModel(w.Root, false)
+			res := runSession(t, SrvOpts{Root: w.Root}, m, reqs, Delivery{Prelude: prelude})
+			r.Transition(int64(len(res.Steps)))
+			r.Eval(1)
+			r.State(desc)
+			r.Nontrivial(desc)
+			for _, st := range res.Steps {
+				r.Outcome("abandoned:" + st.Class)
+			}
+			if res.Why != "" {
+				r.Violation("C06:abandoned-listing:"+res.WhySig, desc+": "+res.Why, map[string]any{"variant": variant, "k": k, "requests": reqs})
+			}
+			_, _ = vi, ki
+		}
+		os.RemoveAll(small)
+	}
 
 	// (b') magnitudes: sizes at and beyond 32 bits (sparse files), their sum in dir-size, and modification times beyond
 	// 2^31 and 2^32 seconds - every size and time field of the protocol is 64 bits wide
